@@ -212,7 +212,7 @@ def sentinel_dtype(ctx, chk):
     RHO = Sym("rho", ("param", "array", "notnone", "floattyped"))
     fn = ctx.fn(INV)
     for method in METHODS:
-        outs = ctx.explore(lambda: ctx.ev.call(fn, [S, RHO, Const(True), Const(method)], {}), chk)
+        outs = ctx.explore(lambda: ctx.call_named(fn, [("scores", S), ("target_ratio", RHO), ("left_continuous", Const(True)), ("method", Const(method))]), chk)
         rets = returns(outs)
         if len(rets) != 1:
             chk.unknown("R03.2", "inversion core (%s): %d return paths" % (method, len(rets)))
